@@ -32,6 +32,10 @@ pub struct RunReport {
   /// hash of the projected trace (distinctness measure)
   pub shape_hash: u64,
   pub nontrivial: bool,
+  /// for simulations that execute several plans per run: hashes of the non-trivial ones
+  pub more_hashes: Vec<u64>,
+  /// number of simulated executions in this run (0 means 1)
+  pub evals: u64,
   pub steps: u64,
   pub counters: BTreeMap<String, u64>,
   /// `<id> <what>` of listed known findings met by this run
@@ -121,6 +125,8 @@ impl KnownFindings {
 #[derive(Serialize, Deserialize, Default, Debug)]
 pub struct WorkerSummary {
   pub runs: u64,
+  #[serde(default)]
+  pub evals: u64,
   pub steps: u64,
   pub nontrivial_hashes: Vec<u64>,
   pub counters: BTreeMap<String, u64>,
@@ -206,10 +212,12 @@ pub fn worker_main(sim: &dyn Simulation, a: WorkerArgs) -> ! {
       }
       Ok(r) => {
         s.runs += 1;
+        s.evals += r.evals.max(1);
         s.steps += r.steps;
         if r.nontrivial {
           s.nontrivial_hashes.push(r.shape_hash);
         }
+        s.nontrivial_hashes.extend(r.more_hashes.iter().copied());
         for (k, v) in r.counters {
           *s.counters.entry(k).or_insert(0) += v;
         }
@@ -455,10 +463,11 @@ pub fn check_main(sim: &dyn Simulation, a: CheckArgs) -> i32 {
       other.insert(k.clone(), *v);
     }
   }
-  let runs_per_hour = if wall > 0.0 { (total.runs as f64 / wall * 3600.0) as u64 } else { 0 };
+  let runs_per_hour = if wall > 0.0 { (total.evals as f64 / wall * 3600.0) as u64 } else { 0 };
   println!(
-    "agsim: {} runs, {} distinct non-trivial traces, {} steps, {:.1}s wall ({} runs/hour)",
+    "agsim: {} worlds/histories, {} simulated runs, {} distinct non-trivial traces, {} steps, {:.1}s wall ({} runs/hour)",
     total.runs,
+    total.evals,
     distinct.len(),
     total.steps,
     wall,
@@ -489,7 +498,8 @@ pub fn check_main(sim: &dyn Simulation, a: CheckArgs) -> i32 {
       "seed": a.seed,
       "level": "exploration",
       "coverage": {
-        "evaluations": total.runs,
+        "evaluations": total.evals,
+        "worlds_or_histories": total.runs,
         "distinct_nontrivial": distinct.len(),
         "rule": d.rule,
         "samples": total.samples.iter().take(4).collect::<Vec<_>>(),
@@ -521,7 +531,8 @@ pub fn check_main(sim: &dyn Simulation, a: CheckArgs) -> i32 {
     for e in &harness_errors {
       println!("HARNESS-ERROR: {e}");
     }
-    return 2;
+    // a violation that was re-verified from its replay document stands on its own
+    return if nviol > 0 { 1 } else { 2 };
   }
   if total.runs == 0 {
     println!("HARNESS-ERROR: no run executed");
@@ -537,6 +548,7 @@ pub fn check_main(sim: &dyn Simulation, a: CheckArgs) -> i32 {
 
 fn merge(total: &mut WorkerSummary, distinct: &mut BTreeSet<u64>, s: WorkerSummary) {
   total.runs += s.runs;
+  total.evals += s.evals;
   total.steps += s.steps;
   for h in s.nontrivial_hashes {
     distinct.insert(h);
